@@ -40,7 +40,7 @@ func main() {
 			4: "wrong-destination", 5: "wrong-source", 6: "result-in-answer-to-a-result", 7: "response-without-request",
 			98: "unparseable-observation", 99: "unparseable-operation"},
 		OpNames: map[int64]string{1: "add-entity", 2: "add-feature", 3: "add-function", 4: "set-data", 5: "get-data", 6: "connect",
-			7: "disconnect", 8: "inbound-datagram", 9: "add-response-callback", 10: "add-result-callback", 11: "factory-query", 12: "overlapping-arrivals", 13: "back-to-back-arrivals"},
+			7: "disconnect", 8: "inbound-datagram", 9: "add-response-callback", 10: "add-result-callback", 11: "factory-query", 12: "overlapping-arrivals", 13: "back-to-back-arrivals", 14: "remove-entity"},
 		NewImpl: func() hx.Impl { return &impl{w: dispatch.New()} },
 		Gen: func(r *hx.Rng, tier string, i int) []hx.Zs {
 			cb := 0
@@ -61,7 +61,7 @@ func main() {
 		Extra: func() map[string]any {
 			return map[string]any{
 				"implementation_side_distribution": dispatch.Stats(),
-				"matrix":                           fmt.Sprintf("%d fixed histories, %d operations, %d datagrams: 6 classifiers x every function of the type (+1 foreign) x ack x destination known/unknown x source announced/not, for 5 feature types x 3 roles and node management", 17, matrixOps, matrixDatagrams),
+				"matrix":                           fmt.Sprintf("%d fixed histories, %d operations, %d datagrams: 6 classifiers x every function of the type (+1 foreign) x ackRequest absent/true/false x destination known/unknown x source announced/not x function element x read restriction, for 5 feature types x 3 roles and node management; 2 histories with nested local entities (child before / without its parent, same-numbered features, removal of parent then child)", 19, matrixOps, matrixDatagrams),
 			}
 		},
 	})
